@@ -129,6 +129,8 @@ def join_program(head, ops):
 
 
 def ddmin(exe, prop, config, text, want_sig, workdir, budget=400):
+    if want_sig.endswith("|hang"):
+        budget = min(budget, 40)  # every surviving candidate costs a full timeout
     """delta debugging over the op list, then over argument magnitudes; every op list is a valid
     program, which is what makes this sound."""
     head, ops = split_program(text)
@@ -139,7 +141,7 @@ def ddmin(exe, prop, config, text, want_sig, workdir, budget=400):
             return False
         runs[0] += 1
         o = replay_text(exe, prop, config, join_program(head, ops_), workdir,
-                        timeout=15 if want_sig.endswith("|hang") else 60)
+                        timeout=8 if want_sig.endswith("|hang") else 60)
         return o.kind != "pass" and o.signature == want_sig
 
     n = 2
